@@ -15,19 +15,23 @@ def gen_walk_case(rng):
   return tree, choices, skipped
 
 
-def exec_walk(ctx, tree, choices, skipped, order):
+def exec_walk(ctx, tree, choices, skipped, order, space=None, case=None, prefix='walk'):
+  """`space`: walk this object (e.g. the space a study serves) instead of the one
+  built locally from `tree`; `case` / `prefix`: replay record and mechanism prefix
+  of the calling family."""
   from vizier._src.pyvizier.shared import parameter_iterators as pi
-  case = {'family': 'walk', 'tree': tree, 'choices': enc(choices), 'skipped': skipped,
-          'order': order}
+  case = case or {'family': 'walk', 'tree': tree, 'choices': enc(choices),
+                  'skipped': skipped, 'order': order}
   eff = {n: (None if n in skipped else v) for n, v in choices.items()}
   oracle = cond.active_walk(tree, eff)
   want = [p['name'] for p, _ in oracle]
   depth_of = cond.param_depths(tree)
   params = cond.all_params(tree)
   n_deep = sum(1 for _, d in oracle if d >= 1)
-  ctx.case(['walk', cond.tree_shape(tree), order, len(want), n_deep, len(skipped)],
+  ctx.case([prefix, cond.tree_shape(tree), order, len(want), n_deep, len(skipped)],
            cond.tree_depth(tree) >= 1)
-  space = cond.build_tree(tree)
+  if space is None:
+    space = cond.build_tree(tree)
   seen = []
   try:
     b = pi.SequentialParameterBuilder(space, traverse_order=order)
@@ -42,7 +46,7 @@ def exec_walk(ctx, tree, choices, skipped, order):
         b.choose_value(v)
     result = b.parameters.as_dict()
   except Exception as e:  # pylint: disable=broad-except
-    ctx.violation(f'walk:{order}:raised:{type(e).__name__}',
+    ctx.violation(f'{prefix}:{order}:raised:{type(e).__name__}',
                   f'SequentialParameterBuilder raised {type(e).__name__}: {e}', case,
                   {'seen': seen})
     return
@@ -63,7 +67,7 @@ def exec_walk(ctx, tree, choices, skipped, order):
       kind = 'missed-active'
     else:
       kind = 'visited-twice'
-    ctx.violation(f'walk:{order}:{kind}',
+    ctx.violation(f'{prefix}:{order}:{kind}',
                   f'walk ({order}) visited {names}, active set is {want}', case,
                   {'missing': missing, 'extra': extra, 'depth': dtag})
     return
@@ -80,13 +84,13 @@ def exec_walk(ctx, tree, choices, skipped, order):
   rec(tree, None)
   for n in names:
     if n in parent_of and pos[parent_of[n]] > pos[n]:
-      ctx.violation(f'walk:{order}:child-before-parent', f'{n} visited before {parent_of[n]}',
+      ctx.violation(f'{prefix}:{order}:child-before-parent', f'{n} visited before {parent_of[n]}',
                     case, {'seen': names})
       return
   for n, t in seen:
     kind = params[n]['kind']
     if (kind if kind != 'BOOL' else 'CATEGORICAL') != t:
-      ctx.violation(f'walk:{order}:wrong-config-yielded', f'{n}: yielded type {t}, is {kind}',
+      ctx.violation(f'{prefix}:{order}:wrong-config-yielded', f'{n}: yielded type {t}, is {kind}',
                     case)
       return
   exp = {n: eff[n] for n in want if eff.get(n) is not None}
@@ -95,7 +99,7 @@ def exec_walk(ctx, tree, choices, skipped, order):
       for n in exp)
   ctx.count('walk_results_checked')
   if not same:
-    ctx.violation(f'walk:{order}:result-mismatch',
+    ctx.violation(f'{prefix}:{order}:result-mismatch',
                   f'builder.parameters {result} != chosen values {exp}', case)
 
 
